@@ -18,7 +18,7 @@ CFG = dict(
         "varint": ("varint_case", "check_varint"), "vdec": ("vdec_case", "check_vdec"),
         "delta": ("delta_case", "check_delta"), "rle": ("rle_case", "check_rle"),
         "sparse": ("sparse_case", "check_sparse"), "frame": ("frame_case", "check_frame"),
-        "split": ("split_case", "check_split"), "valid": ("valid_case", "check_valid"), "breq": ("breq_case", "check_breq"), "fsparse": ("fsparse_case", "check_fsparse"),
+        "split": ("split_case", "check_split"), "valid": ("valid_case", "check_valid"), "breq": ("breq_case", "check_breq"), "fsparse": ("fsparse_case", "check_fsparse"), "parts": ("parts_case", "check_parts"), "fdec": ("fdec_case", "check_fdec"),
     },
     known_classes={},
     shard=150,
@@ -31,6 +31,6 @@ CFG = dict(
     assumptions=["-0.0 read back as +0.0 from sparse storage is counted as exact (IEEE-equal); every other bit pattern must be identical"],
 )
 MANIFEST = dict(
-    text="Round-trip theorems for all inputs: varint (every u64 list), delta/compress_ids with the arithmetic regenerated from delta.rs (every list, unsorted and duplicates included), RLE (+ length), sparse vector (bit patterns), v1/v2 network frames through split+decode for any inverse serializer/compressor pair, safety of the varint decoder and frame splitter on arbitrary bytes (bounded output, bounded buffering), and: a sparse vector that EmbeddingValidator accepts (checks regenerated from the source) is indexed in range by to_dense/get, whatever the deserialiser produced. The model is compared with the real functions on seeded cases per codec; decoders are fuzzed (truncation, bit flips, hostile lz4 size prefixes) for panics.",
+    text="Round-trip theorems for all inputs: varint (every u64 list), delta/compress_ids with the arithmetic regenerated from delta.rs (every list, unsorted and duplicates included), RLE (+ length), sparse vector (bit patterns), v1/v2 network frames through split+decode for any inverse serializer/compressor pair, safety of the varint decoder and frame splitter on arbitrary bytes (bounded output, bounded buffering), and: a sparse vector that EmbeddingValidator accepts (checks regenerated from the source) is indexed in range by to_dense/get, whatever the deserialiser produced; SparseVector::from_parts on the pairs of a dense vector equals from_dense and reads back bit-identically; tensor_compress::format's sparse decoder returns exactly `dimension` entries for any forged position list. The model is compared with the real functions on seeded cases per codec; all four frame readers/writers are driven on every frame and on arbitrary bytes; decoders are fuzzed (truncation, bit flips, hostile lz4 size prefixes) for panics.",
     note="Trusted: Coq kernel, rs2v.py + gen_C20.py (delta operators, varint constants, presence of the encode_v2 size check, flag constants), harness + driver. bitcode/lz4 are premises exercised on every generated message. Lossy tensor-train bound is not a theorem (partial).",
 )
